@@ -257,6 +257,7 @@ def main(argv=None):
         'cap_hit': tot['cap_hit'],
         'jobs': tot['jobs'],
         'skipped_jobs': tot['skipped_jobs'],
+        'time_cap_s': time_cap,
         'distinct_outcomes': len(outcomes),
         'outcome_histogram': dict(sorted(outcomes.items(),
                                          key=lambda kv: -kv[1])[:25]),
